@@ -561,6 +561,27 @@ fn stall_parts(rep: &mut Report, props: &[&str], checks: u32, windows: &[usize],
             }
         }
     }
+    // lockstep sessions that were also asked for sparse saving (documented as ignored), with the
+    // builder's setters called in either order, for longer than the 128-slot input ring
+    if windows.contains(&0) {
+        for order in [0u8, 1] {
+            for d in [0usize, 2] {
+                for t in ["1+1", "1+1+1"] {
+                    let mut s = base_scn("lockstep-sparse-long", t, 0, d, true, Pred::RepeatLast, Program::Changing, 1);
+                    for p in s.peers.iter_mut() {
+                        p.builder_order = order;
+                    }
+                    let (a, b) = (s.peers[0].addr, s.peers[1].addr);
+                    s.outages.push(Outage { from: b, to: a, start: 140, len: 9, classes: CLASS_INPUT });
+                    s.name = format!("{} builder-order={order}", s.name);
+                    s.horizon = 160;
+                    s.probe = 200;
+                    s.checks = checks;
+                    scns.push(s);
+                }
+            }
+        }
+    }
     // three peers, one of them drops early; afterwards a still connected peer starves the first
     for &w in windows {
         if thin && w % 3 == 1 {
